@@ -430,6 +430,28 @@ fn run_iter_case(case: &Case, ic: &IterCase, out: &mut WorkerOut) {
             );
         }
     }
+    // every acknowledged event, whichever of the (up to six) segments holds it, is found by its id
+    for (i, id) in wanted.iter().enumerate() {
+        let db = h.db().clone();
+        let uid = Uuid::from_u128(*id);
+        let r = h.rt.block_on(async move { tokio::time::timeout(Duration::from_secs(40), db.read_event(part, uid)).await });
+        out.evals += 1;
+        let bad = match &r {
+            Ok(Ok(Some(e))) if e.event_id == uid => None,
+            Ok(Ok(Some(_))) => Some("another event was returned".to_string()),
+            Ok(Ok(None)) => Some("not found".to_string()),
+            Ok(Err(e)) => Some(format!("error: {e}")),
+            Err(_) => Some("did not return within 40 s".to_string()),
+        };
+        if let Some(b) = bad {
+            out.violation(
+                &format!("C15/iterator/acked-event-not-found-by-id/{label}"),
+                &format!("after {} acknowledged appends (a new segment every second one) read_event of event #{i}: {b} [{}]", wanted.len(), serde_json::to_string(ic).unwrap()),
+                case_json.clone(),
+            );
+            break;
+        }
+    }
     out.state(vcommon::fnv(format!("{:?}{}{}", ic, got.len(), exhausted_reads).as_bytes()));
     out.outcome(format!("iter:{:?}:{}of{}", ic.kind, got.len(), wanted.len()));
     if out.cases_done % 80 == 0 {
